@@ -170,6 +170,35 @@ def cursor_rules(prog: Program, rep: Report) -> None:
     rep.check(rule, fi.qual, "dense: record counters advanced once", isinstance(post["local_record_count"], NF) and post["local_record_count"] == lrc + 1 and post["record_count"] == rc + 1, what_bad=f"{ {k: vtext(v) for k, v in post.items()} }", what_ok="+1", loc=fi.loc())
 
 
+def compactify_sites(prog: Program, rep: Report) -> None:
+    """R06.6: the dense layout relies on state row index == pid, so the state may only be compactified
+    under the sparse layout (Output.write); enumerate every call site in ladim/."""
+    rule = "R06.6"
+    n = 0
+    for fi in prog.all_functions():
+        if fi.module.name in statefx.SKIP_MODULES or fi.module.name.startswith("ibms"):
+            continue
+        if fi.cls == prog.role_class.get("state") and fi.module.name == prog.role_module.get("state"):
+            continue
+        pm = None
+        for c in statefx.len_change_calls(prog, fi):
+            if not (isinstance(c.func, ast.Attribute) and c.func.attr == "compactify"):
+                continue
+            n += 1
+            pm = pm or {id(ch): p for p in ast.walk(fi.node) for ch in ast.iter_child_nodes(p)}
+            guarded = False
+            cur = c
+            while id(cur) in pm:
+                par = pm[id(cur)]
+                if isinstance(par, ast.If) and any(any(x is cur for x in ast.walk(s_)) for s_ in par.body) and unparse(par.test) in ("self.layout == 'sparse'", "self.layout != 'dense'"):
+                    guarded = True
+                cur = par
+            ok = guarded and fi.qual.endswith("Output.write")
+            rep.check(rule, fi.qual, f"call site `{short(c)}`", ok, what_bad="the state is compactified outside the sparse branch of Output.write: under the dense layout values are written at [time, row index], which equals pid only while no row is ever removed - after a death every later particle lands in the wrong pid column", what_ok="only under the sparse layout", loc=fi.loc(c))
+    if n == 0:
+        raise AnalysisError("no call to state.compactify found (Output.write expected)")
+
+
 def create_rules(prog: Program, rep: Report) -> None:
     fi = prog.role_func("output", "create_netcdf")
     src = unparse(fi.node)
@@ -268,6 +297,7 @@ def run(prog: Program, rep: Report, tier: str) -> None:
     rep.rule("R06.6", "dense layout: both sides masked by alive; never compactified", 5)
     rep.rule("R06.7", "writer / reader / documentation agree on the cumulative-count layout", 1)
     cursor_rules(prog, rep)
+    compactify_sites(prog, rep)
     create_rules(prog, rep)
     particle_variable_rules(prog, rep)
     doc_agreement(prog, rep)
@@ -294,6 +324,7 @@ AUDIT = [
     Mut("dense-unmasked-lon", ON, '                self.nc.variables["lon"][self.local_record_count, has_value] = lon[\n                    state.alive\n                ]', '                self.nc.variables["lon"][self.local_record_count, :] = lon', rule="R06.6"),
     Mut("dense-mask-one-side", ON, "                self.nc.variables[var][self.local_record_count, has_value] = getattr(\n                    state, var\n                )[state.alive]", "                self.nc.variables[var][self.local_record_count, :] = getattr(\n                    state, var\n                )", rule="R06.6"),
     Mut("dense-compactify", ON, '        if self.layout == "sparse":\n            state.compactify()\n', "        state.compactify()\n", rule="R06.6"),
+    Mut("compactify-in-model", "ladim/model.py", "        self.tracker.update()\n        self.ibm.update()\n\n    def finish", "        self.tracker.update()\n        self.ibm.update()\n        self.state.compactify()\n\n    def finish", rule="R06.6"),
     Mut("lonlat-other-snapshot", ON, "            lon, lat = self.xy2ll(state.X, state.Y)", "            lon, lat = self.xy2ll(state.Y, state.X)", rule="R06.1"),
     Mut("units-minutes", ON, '        v.units = f"seconds since {self.timer.reference_time}"', '        v.units = f"minutes since {self.timer.reference_time}"', rule="R06.3"),
     Mut("local-num-records", ON, "        self.local_num_records = min(self.numrec, self.num_records - self.record_count)", "        self.local_num_records = min(self.numrec, self.num_records)", rule="R06.2"),
